@@ -314,7 +314,7 @@ impl<T: Default + Reset + Traceable> Drop for Gc<T> {
         // SAFETY: Check if space is still alive BEFORE accessing ptr.
         // If space is dropped, the GcBox memory is freed and ptr is dangling.
         // This happens during interpreter shutdown when Gc fields outlive the heap.
-        let Some(space_rc) = self.space.upgrade() else {
+        let Some(_space_rc) = self.space.upgrade() else {
             return; // Space is gone, ptr is dangling - do nothing
         };
 
@@ -336,18 +336,13 @@ impl<T: Default + Reset + Traceable> Drop for Gc<T> {
             return;
         }
 
+        // The count is bookkeeping only: objects are reclaimed by the collector when
+        // unreachable from a guard, never because the count reaches 0. A handle that
+        // outlived a previous tenant of this slot also lands here, so the count of the
+        // current tenant says nothing about whether it is still reachable.
         let count = gc_box.ref_count.get();
         if count > 0 {
             gc_box.ref_count.set(count - 1);
-        }
-        // If ref_count is 0, reset and pool the object immediately
-        if gc_box.ref_count.get() == 0 {
-            // Try to borrow - if already borrowed (e.g., during GC), skip pooling
-            if let Ok(mut space) = space_rc.try_borrow_mut() {
-                // Reset to clear references before pooling
-                gc_box.data.borrow_mut().reset();
-                space.pool_object(gc_box.index, self.ptr);
-            }
         }
     }
 }
